@@ -404,9 +404,12 @@ fn in_child(line: &str, timeout_ms: u64) -> String {
         .stdin(std::process::Stdio::piped())
         .stdout(std::process::Stdio::piped())
         .stderr(std::process::Stdio::null());
+    // address-space limit: 2 GiB, or for a larger hostile buffer the proved allocation bound of the decoder (Props/C16.v
+    // C16_alloc_linear: 4128 * len + 40 bytes) plus 1 GiB for the process itself - a request beyond the bound still aborts the child
+    let as_limit: u64 = (2u64 << 30).max(4128 * (line.len() as u64 / 2) + (1u64 << 30));
     unsafe {
-        cmd.pre_exec(|| {
-            let lim = libc::rlimit { rlim_cur: 2 << 30, rlim_max: 2 << 30 };
+        cmd.pre_exec(move || {
+            let lim = libc::rlimit { rlim_cur: as_limit, rlim_max: as_limit };
             libc::setrlimit(libc::RLIMIT_AS, &lim);
             let core = libc::rlimit { rlim_cur: 0, rlim_max: 0 };
             libc::setrlimit(libc::RLIMIT_CORE, &core);
@@ -464,7 +467,8 @@ pub fn run_case(_rt: &tokio::runtime::Runtime, line: &str) -> String {
     let kind = line.split_whitespace().next().unwrap_or("");
     match kind {
         "alloc" => run_direct(line),
-        "hostile" | "cmd" | "rangemap" => in_child(line, 15000),
+        // 15 s, plus 1 s per 10 KB of input (reading and hex-decoding a MB-sized line in an unoptimised build on a loaded machine)
+        "hostile" | "cmd" | "rangemap" => in_child(line, 15000 + (line.len() as u64 / 20)),
         "sess" => in_child(line, 60000),
         _ => format!("unknown-kind {}", kind),
     }
